@@ -109,6 +109,10 @@ theorem embed_eq_inline (priv : String → Bool) (A B : List TypeDecl) (s en : S
   · omega
   · simp only [List.length_cons, List.length_append] at hdepth ⊢; omega
 
+/-- the exportedness test `parse.go` uses in the working tree is one the extractor recognises as
+"first rune is `_` or a letter that is not upper case" (`isPrivateUpper` is its model) -/
+theorem exported_test_recognised : PQ.Gen.Facts.exportedTest = "IsExported" := by decide
+
 /-- for the working tree's exported-ness test the side conditions on `en` follow from `en` being a
 capitalised identifier: `isPrivateUpper en = false` already excludes the primitive type names (all
 lower case); `"-"` is not excluded by it and stays a hypothesis -/
